@@ -39,7 +39,8 @@ ASSUMPTIONS = [
 ]
 PROBES = ["scrolled", "top_reached_zero", "rows_pushed_off", "full_width_bottom_before_scroll", "initial_scrollback",
           "content_below_cursor_at_entry", "exit_keep_last_line_on_bottom", "cache_hit_after_scroll", "empty_array",
-          "hide_cursor_false", "fsarray", "cursor_row_pushed_off", "render_after_scrolled_render", "h1"]
+          "hide_cursor_false", "fsarray", "cursor_row_pushed_off", "render_after_scrolled_render", "h1",
+          "same_object_rendered_again"]
 TRIGGERS = {}
 
 LABELS = "ABCDEFGHIJKLMNOPQRSTUVWXYZ"
@@ -97,7 +98,8 @@ def gen_plan(seed, tier, index=0, avoid=()):
         else:
             cr = 0
         cursor = [cr, rng.randrange(w)]
-        steps.append({"op": "render", "rows": rows, "cursor": cursor, "fsarray": rng.random() < 0.3})
+        steps.append({"op": "render", "rows": rows, "cursor": cursor, "fsarray": rng.random() < 0.3,
+                      "reuse_object": rng.random() < 0.3})
         prev = rows
     return {"prop": PROP, "seed": seed, "cfg": cfg, "steps": steps}
 
@@ -158,6 +160,10 @@ def _simp(p):
         if st.get("fsarray"):
             q = planmod.clone(p)
             q["steps"][i]["fsarray"] = False
+            yield q
+        if st.get("reuse_object"):
+            q = planmod.clone(p)
+            q["steps"][i]["reuse_object"] = False
             yield q
         for j in range(len(st["rows"]) - 1, -1, -1):
             q = planmod.clone(p)
@@ -262,6 +268,7 @@ def _execute(p, s, res):
     if not cfg["hide_cursor"]:
         world.probe("hide_cursor_false")
     prev_scrolled = False
+    last_arr = None
     shown = []          # rows currently displayed from the window's top row down
     try:
         win.__enter__()
@@ -282,7 +289,10 @@ def _execute(p, s, res):
             res["nsteps"] += 1
             rows = st["rows"]
             n = len(rows)
-            arr = gen.build_array(rows, st.get("fsarray"), w)
+            arr = gen.build_array(rows, st.get("fsarray"), w, last_arr if st.get("reuse_object") else None)
+            if arr is last_arr:
+                world.probe("same_object_rendered_again")
+            last_arr = arr
             if st.get("fsarray"):
                 world.probe("fsarray")
             if not rows:
